@@ -56,6 +56,9 @@ func RandCfg(r *rand.Rand) Cfg {
 	if r.Intn(2) == 0 {
 		c.KK = "vk"
 	}
+	if r.Intn(12) == 0 {
+		c.KK, c.VKind, c.Fmt, c.Reg = "str", "str", "json", true
+	}
 	return c
 }
 
